@@ -493,24 +493,57 @@ func (e *Engine) reach(roots ...*ssa.Function) map[*ssa.Function]bool {
 func (e *Engine) reach0(roots ...*ssa.Function) map[*ssa.Function]bool {
 	seen := map[*ssa.Function]bool{}
 	visited := map[string]bool{}
-	type binding map[int][]*ssa.Function
+	// binding: what is known about the parameters in this calling context – the functions a function-typed parameter
+	// can be, and the value of a bool parameter that was a constant at the call site (it may select the function:
+	// eval := Eval; if forUpdate { eval = EvalUpdate })
+	type binding struct {
+		f map[int][]*ssa.Function
+		b map[int]bool
+	}
 	keyOf := func(f *ssa.Function, bd binding) string {
 		k := fmt.Sprintf("%p", f)
 		var idx []int
-		for i := range bd {
+		for i := range bd.f {
 			idx = append(idx, i)
 		}
 		sort.Ints(idx)
 		for _, i := range idx {
 			k += fmt.Sprintf("|%d:", i)
 			var ns []string
-			for _, g := range bd[i] {
+			for _, g := range bd.f[i] {
 				ns = append(ns, fmt.Sprintf("%p", g))
 			}
 			sort.Strings(ns)
 			k += strings.Join(ns, ",")
 		}
+		idx = idx[:0]
+		for i := range bd.b {
+			idx = append(idx, i)
+		}
+		sort.Ints(idx)
+		for _, i := range idx {
+			k += fmt.Sprintf("|%d=%v", i, bd.b[i])
+		}
 		return k
+	}
+	// infeasible: the edge pred→b contradicts a bound bool parameter
+	infeasible := func(pred, b *ssa.BasicBlock, f *ssa.Function, bd binding) bool {
+		if len(bd.b) == 0 {
+			return false
+		}
+		for _, cd := range append(append([]Cond{}, condsAt(pred)...), edgeFacts(pred, b)...) {
+			cd = normCond(cd)
+			if q, ok := strip(cd.V).(*ssa.Parameter); ok {
+				for i, p := range f.Params {
+					if p == q {
+						if val, known := bd.b[i]; known && val != cd.Val {
+							return true
+						}
+					}
+				}
+			}
+		}
+		return false
 	}
 	// funcsOf: the functions a function-typed argument can be, when that is evident at the call site
 	var funcsOf func(v ssa.Value, f *ssa.Function, bd binding) ([]*ssa.Function, bool)
@@ -527,10 +560,25 @@ func (e *Engine) reach0(roots ...*ssa.Function) map[*ssa.Function]bool {
 		case *ssa.Parameter:
 			for i, p := range f.Params {
 				if p == x {
-					if gs, ok := bd[i]; ok {
+					if gs, ok := bd.f[i]; ok {
 						return gs, true
 					}
 				}
+			}
+		case *ssa.Phi:
+			var out []*ssa.Function
+			for i, ed := range x.Edges {
+				if infeasible(x.Block().Preds[i], x.Block(), f, bd) {
+					continue
+				}
+				gs, ok := funcsOf(ed, f, bd)
+				if !ok {
+					return nil, false
+				}
+				out = append(out, gs...)
+			}
+			if len(out) > 0 {
+				return out, true
 			}
 		}
 		return nil, false
@@ -565,6 +613,15 @@ func (e *Engine) reach0(roots ...*ssa.Function) map[*ssa.Function]bool {
 						}
 						var nb binding
 						for j, a := range c.Common().Args {
+							if k, isK := a.(*ssa.Const); isK && isBoolType(a.Type()) && j < len(g.Params) && c.Common().StaticCallee() == g {
+								if val, ok := constBool(k); ok {
+									if nb.b == nil {
+										nb.b = map[int]bool{}
+									}
+									nb.b[j] = val
+								}
+								continue
+							}
 							if _, isSig := a.Type().Underlying().(*types.Signature); !isSig {
 								continue
 							}
@@ -573,24 +630,24 @@ func (e *Engine) reach0(roots ...*ssa.Function) map[*ssa.Function]bool {
 								pj = j // static method call: receiver is Args[0] and Params[0]
 							}
 							if gs, ok := funcsOf(a, f, bd); ok && pj < len(g.Params) {
-								if nb == nil {
-									nb = binding{}
+								if nb.f == nil {
+									nb.f = map[int][]*ssa.Function{}
 								}
-								nb[pj] = gs
+								nb.f[pj] = gs
 							}
 						}
 						visit(g, nb)
 					}
 				case *ssa.MakeClosure:
 					if g, ok := c.Fn.(*ssa.Function); ok {
-						visit(g, nil)
+						visit(g, binding{})
 					}
 				}
 			}
 		}
 	}
 	for _, r := range roots {
-		visit(r, nil)
+		visit(r, binding{})
 	}
 	return seen
 }
